@@ -56,6 +56,10 @@ FINDINGS = os.environ.get("C11_FINDINGS", "") == "1"
 # ------------------------------------------------------------------------------------------ generators
 def _pool(rng):
     k = rng.randint(2, 5)
+    if rng.random() < 0.25:
+        # fine dyadic values (10+ decimals, still exact in float64): a rounding or tolerance slipped into the
+        # theta / kink computation shows up only on such data
+        return [rng.randint(-40, 40) / rng.choice([1024, 4096]) for _ in range(k)]
     return [rng.randint(-8, 8) / rng.choice([1, 2, 4]) for _ in range(k)]
 
 
